@@ -3,7 +3,7 @@ import math
 
 import numpy as np
 
-from .. import common as C, gen, scen
+from .. import common as C, gen, scen, translators
 from ..common import tok_f, tok_opt
 from ..runner import Check
 from . import drvgen, drvcommon as D
@@ -83,7 +83,7 @@ def function_level():
 
 
 def run():
-    chk = Check("C12")
+    chk = Check("C12", props_modules=["GFO.Props.C12", "GFO.Gen.StopGenCheck"], gen_steps=(translators.gen_stop,))
     chk.build_and_audit()
     r = C.rng("C12")
     quick = C.tier() != "thorough"
